@@ -1,8 +1,9 @@
 """C13 - submission retries follow the server's pacing and stop when they should.
 
-spec/client/Retry.tla (shared back-off state, one action per critical section, logical time),
-MCRetry (exhaustive, liveness, simulation), RetryTrace (trace validation with the constants of the
-code).  Binding, under testing/synctest virtual time (go1.26) and -race, over a scripted
+spec/client/Retry.tla (shared back-off state, one action per critical section, logical time; the
+wire response, the spelling of a 200 body and the caller's http.Client decide which class of the
+property the submission sees: Seen), MCRetry (exhaustive, liveness, simulation), RetryTrace (trace
+validation with the constants of the code).  Binding, under testing/synctest virtual time (go1.26) and -race, over a scripted
 http.RoundTripper on the real jsonclient.PostAndParseWithRetry / LogClient.AddChain / AddPreChain:
 replay of TLC behaviours (harness/vt/c13 TestReplay) and validation of recorded Call/Post/State/Return
 traces by TLC (TestTrace -> RetryTrace.tla); oracle-free monitors of the clauses on every timeline.
@@ -24,6 +25,13 @@ ASSUME = [
     "MaxMult 3, jitter {0,1} ticks; the constants of the code (MaxMult 8, 128 s, 250 ms) are used by simulation/replay and "
     "trace validation",
     "no '408 for ever' script: the code retries 408 at once, which is a zero-time loop against a zero-latency server",
+    "http.Client configurations: none, plain, own CheckRedirect (pass / bound at 5 hops / ErrUseLastResponse / refuse), cookie "
+    "jar, Timeout that is never reached; redirect chains of at most 3 hops, or endless; a refused redirect may be retried or "
+    "returned as its 3xx status (both admitted, never a success)",
+    "200 bodies: 10 legal JSON spellings of the complete correct response (RFC 8259: \\/ and \\uXXXX escapes in values and "
+    "names, white space, member order, unknown scalar / nested members) and 11 unparsable ones (among them base64 without "
+    "padding / in the URL alphabet); duplicate members, names differing in case, null members, non-integer number spellings "
+    "are left unasserted",
 ]
 
 
@@ -37,6 +45,10 @@ def run(ctx, replay=None):
     r = ctx.tlc("client", "MCRetry", ctx.pick("RetrySmall.cfg", "Retry.cfg"), workers=WORKERS, timeout=3000)
     ctx.exhaustive = {"cfg": ctx.pick("RetrySmall.cfg", "Retry.cfg"), "distinct_states": r.distinct, "depth": r.depth}
     ctx.tlc("client", "MCRetry", ctx.pick("RetryLive.cfg", "RetryLiveFull.cfg"), workers=WORKERS, timeout=3000)
+    # the wire: what the submission sees of a response as a function of the caller's http.Client (redirect policy) and
+    # of the spelling of a 200 body; all clauses again over every wire kind
+    rw = ctx.tlc("client", "MCRetry", ctx.pick("RetryWire.cfg", "RetryWireFull.cfg"), workers=WORKERS, timeout=3000)
+    ctx.exhaustive["wire"] = {"cfg": ctx.pick("RetryWire.cfg", "RetryWireFull.cfg"), "distinct_states": rw.distinct, "depth": rw.depth}
     bind(ctx)
 
 
@@ -133,6 +145,11 @@ def validate_traces(ctx, tr, scen, label):
             if e.get("ev") == "Post" and e.get("c") == ev.get("c", e.get("c")):
                 prev = e
         after = "%s/%s" % (prev["cls"], prev["rak"]) if prev else "none"
+        if prev and prev.get("w") in ("b200", "pres"):
+            after += "/" + prev.get("sp", "")          # the spelling of the 200 body
+        if prev and prev.get("w") in ("redir", "pres", "loop"):
+            hcs = [json.loads(x).get("hc") for x in lines[:n] if '"ev":"Reset"' in x]
+            after += "@hc=%s" % (hcs[-1] if hcs else "?")
         if r.violated and not stuck:
             fp = "trace:clause:%s" % r.violated
         elif ev.get("ev") == "Return":
